@@ -360,37 +360,43 @@ fn split_records<'a>(data: &'a [u8], sep: &[u8]) -> Vec<(usize, &'a [u8], bool)>
 }
 
 fn record_ok(rec: &[u8], end_offset: usize, cuts: &BTreeSet<usize>, known: &Known, sep: &[u8]) -> Result<(), String> {
-    if rec.is_empty() || known.events.contains_key(rec) {
-        return Ok(());
-    }
-    // a truncated prefix of exactly one event (possibly followed by part of a separator)
-    for strip in 0..sep.len() {
-        if strip > rec.len() {
-            break;
-        }
-        let (body, tail) = rec.split_at(rec.len() - strip);
-        if strip > 0 && tail != &sep[..strip] {
-            continue;
-        }
-        if body.is_empty() || known.events.contains_key(body) {
+    // A record is: a complete event, empty, or a truncated prefix of exactly one event's bytes ending where a write
+    // was interrupted - any of them possibly followed by fragments of a multi-byte separator (each a proper prefix of
+    // it: a recovery separator can itself be torn, more than once).
+    fn ok(rec: &[u8], end: usize, cuts: &BTreeSet<usize>, known: &Known, sep: &[u8], depth: usize) -> Result<(), String> {
+        if rec.is_empty() || known.events.contains_key(rec) {
             return Ok(());
         }
-        let is_prefix = known.events.values().any(|e| e.len() > body.len() && e.starts_with(body));
-        if is_prefix {
-            // must sit exactly where a write was interrupted
-            let body_end = end_offset - strip;
-            if cuts.contains(&body_end) || cuts.contains(&end_offset) {
+        if known.events.values().any(|e| e.len() > rec.len() && e.starts_with(rec)) {
+            if cuts.contains(&end) {
                 return Ok(());
             }
             return Err(format!(
                 "truncated record {:?} ends at offset {} where no write was interrupted (interruptions at {:?})",
                 String::from_utf8_lossy(rec),
-                end_offset,
+                end,
                 cuts
             ));
         }
+        if depth < 8 {
+            for strip in 1..sep.len() {
+                if strip <= rec.len() && rec[rec.len() - strip..] == sep[..strip] {
+                    // the fragment itself sits where a write was interrupted (or right before the next recovery separator)
+                    if ok(&rec[..rec.len() - strip], end - strip, cuts, known, sep, depth + 1).is_ok() {
+                        return Ok(());
+                    }
+                    // a truncated body directly followed by a fragment: the body's cut is what matters
+                    let mut with_end = cuts.clone();
+                    with_end.insert(end - strip);
+                    if cuts.contains(&end) && ok(&rec[..rec.len() - strip], end - strip, &with_end, known, sep, depth + 1).is_ok() {
+                        return Ok(());
+                    }
+                }
+            }
+        }
+        Err(format!("record {:?} is not an event, empty, or a prefix of one event", String::from_utf8_lossy(rec)))
     }
-    Err(format!("record {:?} is not an event, empty, or a prefix of one event", String::from_utf8_lossy(rec)))
+    ok(rec, end_offset, cuts, known, sep, 0)
 }
 
 pub fn exec_plan(
